@@ -82,8 +82,9 @@ func hasInt(l []int, x int) bool {
 	return false
 }
 
-// static invariants of one observed state
-func checkState(v *View) []violation {
+// static invariants of one observed state.  readded[a]: governance removed oracle a since it bonded and an
+// AddDelegate of a was accepted afterwards (the trigger of finding C13-2).
+func checkState(v *View, readded map[int]bool) []violation {
 	var out []violation
 	if v.rawIdxBad != "" {
 		out = append(out, violation{"C13:index:key", v.rawIdxBad})
@@ -117,7 +118,11 @@ func checkState(v *View) []violation {
 		}
 		if r.Online {
 			if d := v.delegated(r.A); d.Cmp(r.Amount) != 0 {
-				out = append(out, violation{"C13:unbacked:online-oracle-delegation-differs-from-recorded-stake",
+				sig := "C13:stake:online-oracle-delegation-differs-from-recorded-stake"
+				if readded[r.A] {
+					sig = "C13:unbacked:add-delegate-after-governance-removal"
+				}
+				out = append(out, violation{sig,
 					fmt.Sprintf("online oracle %d: recorded stake %s but %s delegated on its behalf", r.A, r.Amount, d)})
 			}
 		}
@@ -206,7 +211,7 @@ func checkStep(op Op, class int, pre, post *View) []violation {
 		pen := penalty(r0, pre.Fraction)
 		if class != 0 {
 			if pend.Sign() == 0 && pre.BalD[op.A].Cmp(pen) >= 0 {
-				fail("C13:unbond:after-maturity-rejected", "oracle %d was removed by governance, its unbonding has matured (%s at the delegate address, penalty %s) and the withdrawal is refused", op.A, pre.BalD[op.A], pen)
+				fail("C13:unbond-inverted:after-maturity-rejected", "oracle %d was removed by governance, its unbonding has matured (%s at the delegate address, penalty %s) and the withdrawal is refused", op.A, pre.BalD[op.A], pen)
 			}
 			break
 		}
@@ -218,7 +223,7 @@ func checkStep(op Op, class int, pre, post *View) []violation {
 			fail("C13:unbond:amount", "oracle %d: paid %s, penalty %s, delegate balance was %s", op.A, paid, pen, pre.BalD[op.A])
 		}
 		if pend.Sign() > 0 {
-			fail("C13:unbond:before-maturity-forfeits-stake", "oracle %d withdrew while %s of its stake was still unbonding: records deleted, that stake will mature into the keyless delegate address", op.A, pend)
+			fail("C13:unbond-inverted:before-maturity-forfeits-stake", "oracle %d withdrew while %s of its stake was still unbonding: records deleted, that stake will mature into the keyless delegate address", op.A, pend)
 		}
 	}
 	// offline transitions and slash counts
